@@ -963,6 +963,9 @@ func verifH_C02_content_positions() {
 		c = o.RequestBody.Value.Content["multipart/form-data"].Encoding["f"].Headers["X-E"].Value.Content
 	}
 	mt := c["application/json"]
+	// encoding headers are not visited by the loader at all (known finding)
+	verifKnown("C02-nested-examples-and-encoding-headers-not-resolved", pos == 3)
 	verifAssert(mt != nil && mt.Schema != nil && mt.Schema.Value != nil && mt.Schema.Value.Type.Is("string") && mt.Schema.Value.MinLength == 3, "C02 content positions: a schema reference inside content is resolved to the schema it designates")
+	verifKnown("C02-nested-examples-and-encoding-headers-not-resolved", false)
 	verifReach("end")
 }
